@@ -392,6 +392,12 @@ fn token_edits(seed: &[u8]) -> Vec<Edit> {
         for x in EXTREMES {
             v.push(Edit { start: *s, end: *e, with: x.as_bytes().to_vec() });
         }
+        // every small value (offsets, counts, widths and indices near the sizes of a small input)
+        if seed.len() <= 400 {
+            for x in 0..=(seed.len() as i64 + 2).min(130) {
+                v.push(Edit { start: *s, end: *e, with: x.to_string().into_bytes() });
+            }
+        }
         // its own offset, the file length and neighbours
         for x in [*s as i64, seed.len() as i64, seed.len() as i64 - 1, seed.len() as i64 + 1] {
             v.push(Edit { start: *s, end: *e, with: x.to_string().into_bytes() });
@@ -472,6 +478,37 @@ fn families(thorough: bool) -> Vec<(&'static str, String, Vec<u8>)> {
             }
             f.extend_from_slice(format!("trailer\n<</Size {}/Root 1 0 R>>\nstartxref\n{}\n%%EOF", d + 1, x).as_bytes());
             v.push(("load", format!("Length reference chain of {} streams (cyclic)", d), f));
+        }
+    }
+    // many occurrences of structural keywords (searches that recurse or rescan per occurrence)
+    for n in [100usize, 10_000, 100_000, 1_000_000] {
+        if n > 100_000 && !thorough {
+            continue;
+        }
+        for kw in [&b"%%EOF\n"[..], b"startxref\n0\n%%EOF\n", b"endstream\n", b"endobj\n", b"xref\n", b"trailer\n<<>>\n", b"stream\n", b"obj\n", b"%PDF-1.4\n"] {
+            let body: Vec<u8> = kw.iter().cloned().cycle().take(kw.len() * n).collect();
+            // as stream data inside a valid file, and as trailing / leading garbage
+            let mut obj = format!("<</Length {}>>stream\n", body.len()).into_bytes();
+            obj.extend_from_slice(&body);
+            obj.extend_from_slice(b"\nendstream");
+            v.push(("load", format!("{} x {:?} inside a stream", n, String::from_utf8_lossy(kw)), wrap_pdf(&obj)));
+            let mut f = wrap_pdf(b"null");
+            f.extend_from_slice(b"\n");
+            f.extend_from_slice(&body);
+            v.push(("load", format!("{} x {:?} after the file", n, String::from_utf8_lossy(kw)), f.clone()));
+            v.push(("incload", format!("{} x {:?} after the file", n, String::from_utf8_lossy(kw)), f));
+            let mut g = body.clone();
+            g.extend_from_slice(&wrap_pdf(b"null"));
+            v.push(("load", format!("{} x {:?} before the file", n, String::from_utf8_lossy(kw)), g));
+        }
+        // content streams and CMaps made of one repeated token
+        for tok in [&b"q "[..], b"BT ", b"BI ", b"( ", b"<< ", b"/N ", b"1 ", b"% c\n", b"ID ", b"EI "] {
+            let body: Vec<u8> = tok.iter().cloned().cycle().take(tok.len() * n).collect();
+            v.push(("content", format!("{} x {:?}", n, String::from_utf8_lossy(tok)), body));
+        }
+        for tok in [&b"1 beginbfchar\n<01> <0041>\nendbfchar\n"[..], b"1 begincodespacerange\n<00> <FF>\nendcodespacerange\n", b"begincmap\n", b"<0001> "] {
+            let body: Vec<u8> = tok.iter().cloned().cycle().take(tok.len() * n.min(100_000)).collect();
+            v.push(("cmap", format!("{} x {:?}", n.min(100_000), String::from_utf8_lossy(tok)), body));
         }
     }
     // Prev cycles and self-references
